@@ -1347,6 +1347,15 @@ class Evaluator:
         elif isinstance(target, (ast.Tuple, ast.List)):
             items = list_items(value)
             n = len(target.elts)
+            if items is None and isinstance(value, App) and value.op == "elem" and isinstance(value.args[0], App):
+                src = value.args[0]
+                if src.op == "call:enumerate" and n == 2 and len(src.args) in (1, 2):
+                    # for i, x in enumerate(xs): x is the element of xs, i its position
+                    pos = App("position", (src.args[0],), target) if len(src.args) == 1 else App("+", (App("position", (src.args[0],), target), src.args[1]), target)
+                    items = [pos, App("elem", (src.args[0],), value.node)]
+                elif src.op == "call:zip" and n == len(src.args) and n >= 2:
+                    # for a, b in zip(xs, ys): the elements of xs and ys at the same position
+                    items = [App("elem", (a_,), value.node) for a_ in src.args]
             if items is not None and len(items) == n:
                 for t, v in zip(target.elts, items):
                     self.bind_target(t, v, st, fr)
